@@ -118,7 +118,41 @@ def _is_call(v, f):
         isinstance(v.args[0], FRef) and v.args[0].fi is f
 
 
-def rule_ctls12(prog, D):
+def _fair_forwarded(r2, calls, FL, elim, name, what):
+    """the fairness label the eliminator was given is the third argument of
+    the calls it makes (recursion, quantifier checker): a call without it
+    falls back to the default (no fairness) for that subformula"""
+    for (pos, kw) in calls:
+        if len(pos) >= 3 and pos[2] == FL:
+            r2.ok()
+        elif len(pos) == 2 and not kw:
+            r2.fail(Finding(
+                PROP, 'R-CTLS-2', elim.where(), elim.short(),
+                'fair-label-dropped:%s' % name,
+                'eliminating the state subformulas of a %s formula: %s is '
+                'called without the fairness label the eliminator was given '
+                '(default: no fairness), so a nested subformula is checked '
+                'over all paths while the enclosing one is checked over fair '
+                'paths' % (name, what),
+                expected='the same fair_label passed on'),
+                witness=repr(pos))
+        elif len(pos) >= 3:
+            r2.fail(Finding(
+                PROP, 'R-CTLS-2', elim.where(), elim.short(),
+                'fair-label-changed:%s' % name,
+                'eliminating the state subformulas of a %s formula: %s gets '
+                '%r as fairness label instead of the one the eliminator was '
+                'given' % (name, what, pos[2]),
+                expected='the same fair_label passed on'),
+                witness=repr(pos))
+        else:
+            raise Inconclusive('R-CTLS-2', 'fairness label of %s: arguments '
+                               '%r %r' % (what, pos, kw), elim.where())
+
+
+
+def rule_ctls12(prog, D, fair=False):
+    """fair=True (C15): also the clause 'the fairness label is passed on'"""
     mod, entry, elim, quant = D
     r1 = RuleResult('R-CTLS-1', 'eliminator: atoms unchanged, quantified '
                     'subformulas replaced by a fresh atom, any other formula '
@@ -205,6 +239,11 @@ def rule_ctls12(prog, D):
                     (K, h) for g, h in zip(got_kids, val.args))
             if ok:
                 r1.ok()
+                if fair:
+                    _fair_forwarded(r2, [(g.args[1].items, g.args[2].items)
+                                         for g in got_kids], FL, elim,
+                                    name, 'the recursive elimination of an '
+                                    'operand')
             else:
                 r1.fail(Finding(
                     PROP, 'R-CTLS-1', elim.where(), elim.short(),
@@ -237,6 +276,10 @@ def rule_ctls12(prog, D):
                             'by an atomic proposition' % (v,)), witness=v)
         # provenance
         ok_q = len(qcalls) == 1 and list(qcalls[0].args[0][:2]) == [K, val]
+        if ok_q and fair:
+            _fair_forwarded(r2, [(tuple(qcalls[0].args[0]),
+                                  tuple(qcalls[0].args[1]))], FL, elim, name,
+                            'the check of the quantified subformula')
         ok_add = len(adds) == 1 and adds[0].args[0] == name_v and \
             isinstance(adds[0].target, App) and \
             adds[0].target.op == 'labels' and adds[0].target.args[0] == K
